@@ -36,6 +36,7 @@ CODE_DEBUG_ONLY = {
 FUNC_RELEVANT = {
     "__defaults__": "default values of positional parameters (not in the code object)",
     "__kwdefaults__": "default values of keyword-only parameters (not in the code object)",
+    "__closure__": "values captured from the function that made a closure (h = make(1): the code object is the same whatever was passed)",
 }
 NONDETERMINISTIC_CALLS = {"hash", "id", "uuid4", "uuid1", "time", "time_ns", "getpid", "random", "randint", "getrandbits", "urandom", "now", "today"}
 LOCATION_ATTRS = {"co_filename", "co_firstlineno", "co_lnotab", "co_linetable", "__file__"}
@@ -535,12 +536,56 @@ def _module_expand(mod, expr, depth=8):
     return T(depth).visit(copy.deepcopy(expr))
 
 
+def _attr_read_subject(n, attr):
+    """`X.attr` / getattr(X, 'attr'[, d]) -> X, else None"""
+    if isinstance(n, ast.Attribute) and n.attr == attr:
+        return n.value
+    if isinstance(n, ast.Call) and A.call_attr(n) == "getattr" and len(n.args) >= 2 and A.const_str(n.args[1]) == attr:
+        return n.args[0]
+    return None
+
+
+def _helper_reads_attr(fa, call, attr):
+    """`helper(X, ...)` where helper is a plain function of the same module whose returned value derives from `<its parameter>.attr`:
+    the argument X bound to that parameter, else None.  (One level: a read moved into a helper is still a read of X.)"""
+    if not (isinstance(call, ast.Call) and isinstance(call.func, ast.Name)):
+        return None
+    fi = next((f for f in fa.fi.module.all_funcs() if f.parent is None and f.cls is None and f.name == call.func.id), None)
+    if fi is None or fi is fa.fi:
+        return None
+    try:
+        sub = FA(fa.ck, fi)
+    except Exception:  # noqa
+        return None
+    for r in sub.returns():
+        if r.value is None or not sub.nodes(r):
+            continue
+        for n in _flow(sub, r.value, sub.nodes(r)[0]).values():
+            subj = _attr_read_subject(n, attr)
+            if isinstance(subj, ast.Name) and subj.id in sub.fi.params:
+                k = sub.fi.params.index(subj.id)
+                if k < len(call.args):
+                    return call.args[k]
+                for kw in call.keywords:
+                    if kw.arg == subj.id:
+                        return kw.value
+    # closure cells and the like are usually walked in a loop: any read of the attribute on a parameter inside the helper
+    for n in A.walk_body(sub.node):
+        subj = _attr_read_subject(n, attr)
+        if isinstance(subj, ast.Name) and subj.id in sub.fi.params and any(r.value is not None for r in sub.returns()):
+            k = sub.fi.params.index(subj.id)
+            if k < len(call.args):
+                return call.args[k]
+    return None
+
+
 def _reads_attr(fa, expr, attr, at=None):
-    """Does the value of `expr` derive from `<something>.attr` / getattr(<something>, 'attr'[, default])?"""
+    """Does the value of `expr` derive from `<something>.attr` / getattr(<something>, 'attr'[, default]), directly or through a
+    plain helper of the module that reads it from its argument?"""
     for n in _flow(fa, expr, at).values():
-        if isinstance(n, ast.Attribute) and n.attr == attr:
+        if _attr_read_subject(n, attr) is not None:
             return True
-        if isinstance(n, ast.Call) and A.call_attr(n) == "getattr" and len(n.args) >= 2 and A.const_str(n.args[1]) == attr:
+        if _helper_reads_attr(fa, n, attr) is not None:
             return True
     return False
 
@@ -697,6 +742,9 @@ def check_hash_input_coverage(ck, R):
             got.add(n.attr)
         if isinstance(n, ast.Call) and A.call_attr(n) == "getattr" and len(n.args) >= 2 and A.const_str(n.args[1]) in FUNC_RELEVANT:
             got.add(A.const_str(n.args[1]))
+        for attr in FUNC_RELEVANT:
+            if isinstance(n, ast.Call) and _helper_reads_attr(outer, n, attr) is not None:
+                got.add(attr)
     for attr, why in FUNC_RELEVANT.items():
         ok = attr in got
         if ok:
@@ -713,6 +761,10 @@ def check_hash_input_coverage(ck, R):
                     (isinstance(n, ast.Call) and A.call_attr(n) == "getattr" and len(n.args) >= 2 and A.const_str(n.args[1]) in FUNC_RELEVANT):
                 if isinstance(st, (ast.Assign, ast.Expr, ast.AugAssign, ast.AnnAssign, ast.Return)):
                     def_reads.append((A.const_str(n.args[1]) if isinstance(n, ast.Call) else n.attr, st))
+            elif isinstance(n, ast.Call) and isinstance(st, (ast.Assign, ast.Expr, ast.AugAssign, ast.AnnAssign, ast.Return)):
+                for attr in FUNC_RELEVANT:
+                    if _helper_reads_attr(outer, n, attr) is not None:
+                        def_reads.append((attr, st))
     by_attr = {}
     for (a, st) in def_reads:
         by_attr.setdefault(a, []).append(st)
@@ -742,6 +794,9 @@ def check_hash_input_coverage(ck, R):
                         rd = n.args[0]
                     if isinstance(n, ast.Attribute) and n.attr == attr and isinstance(n.value, ast.Name):
                         rd = n.value
+                    if rd is None and isinstance(n, ast.Call):
+                        hx = _helper_reads_attr(outer, n, attr)
+                        rd = hx if isinstance(hx, ast.Name) else None
                     if rd is not None:
                         same = rd.id == subj.id and all(outer.df.same_defs(subj.id, a, b) for a in outer.nodes(st) for b in outer.nodes(code_reads[0]))
                         ck.ob(R, outer.key(None, "same-object:" + attr), same,
@@ -774,6 +829,16 @@ def hash_rule_classes(ck):
     return subs
 
 
+def _is_watch_only(cls) -> bool:
+    """Does the class body set `watch_only = True`?"""
+    for st in cls.node.body:
+        if isinstance(st, (ast.Assign, ast.AnnAssign)):
+            tg = st.targets if isinstance(st, ast.Assign) else [st.target]
+            if any(isinstance(t, ast.Name) and t.id == "watch_only" for t in tg) and isinstance(st.value, ast.Constant) and st.value.value is True:
+                return True
+    return False
+
+
 def check_rule_kinds_contribute(ck, R):
     ck.rule(R, "every hash-rule kind contributes what it tracks: a memento rule its declared version or code hash, a "
                "plain-function rule the function's code hash, a variable rule the serialised value", 4)
@@ -798,6 +863,11 @@ def check_rule_kinds_contribute(ck, R):
         elif nm == "UndefinedSymbolHashRule":
             ok = all(r.value is None or A.is_none(r.value) for r in fa.returns())
             msg = "nothing (an undefined symbol has no content; its appearance is a did_change event)"
+        elif _is_watch_only(cls):
+            # a rule that only watches a symbol nothing can be hashed for (class attribute watch_only = True): it is
+            # kept out of the digest by contributing None, and out of hash_rules() by that attribute
+            ok = all(r.value is None or A.is_none(r.value) for r in fa.returns())
+            msg = "nothing (a watch-only rule has no content; what it watches becoming hashable is a did_change event)"
         else:
             ok = bool(deps - {"const:None"})
             msg = "a value"
@@ -813,8 +883,11 @@ def check_rule_kinds_contribute(ck, R):
     sv = FA(ck, CH + ".GlobalVariableHashRule._serialize_value")
     d = [c for c in sv.calls("dumps")]
     p0 = sv.fi.params[0] if sv.fi.params else "var"
-    oks = len(d) == 1 and any(isinstance(x, ast.Call) and A.call_attr(x) == "encode_arg" and len(x.args) == 1 and sv.xnorm(x.args[0], sv.nodes(d[0])[0]) == p0
-                              for a_ in d[0].args[:1] for x in _flow(sv, a_).values())
+    # some dump is the dump of encode_arg(var), and every value returned (other than "cannot be hashed": None) is built from it
+    codec_dumps = [c for c in d if sv.nodes(c) and any(isinstance(x, ast.Call) and A.call_attr(x) == "encode_arg" and len(x.args) == 1
+                                                      and sv.xnorm(x.args[0], sv.nodes(c)[0]) == p0 for a_ in c.args[:1] for x in _flow(sv, a_).values())]
+    oks = len(codec_dumps) == 1 and all(r.value is None or A.is_none(r.value) or not sv.nodes(r) or "call:encode_arg" in sv.df.deps(r.value, sv.nodes(r)[0])
+                                        for r in sv.returns())
     ck.ob(R, sv.key(None, "codec"), oks, "values are serialised through the argument codec" if oks else
           "_serialize_value does not serialise MementoCodec.encode_arg(var)", sv.where())
 
@@ -2032,6 +2105,7 @@ def check_did_change(ck, R):
         "NonMementoFunctionHashRule": ("src_fn",),
         "GlobalVariableHashRule": ("last_value",),
         "UndefinedSymbolHashRule": ("ref", "symbol"),
+        "UnhashedSymbolHashRule": ("ref",),
     }
     for cls in hash_rule_classes(ck):
         m = cls.methods.get("did_change")
@@ -2105,6 +2179,11 @@ def check_did_change(ck, R):
                 fresh, cap, cmp_ = judge(r.value, i_)
                 if fresh and cap and cmp_:
                     decided += 1
+                elif fresh and _is_watch_only(cls) and "call:try_resolve" in fa.df.deps(r.value, i_) \
+                        and (lambda cj: cj is not None and bool(cj) and all(any(l[0] in real_lits for l in conj) for conj in cj))(fa.conditions(r)):
+                    # a watch-only rule contributes nothing itself: once the comparison has said "bound to another object",
+                    # the answer may be narrowed to "and some strategy can hash it now" (asked of the fresh resolution)
+                    decided += 1
                 elif ok is None and not (const_ways and not (fresh or cap or cmp_)):
                     ok = False
                     why = ("does not re-resolve the symbol" if not fresh else
@@ -2133,6 +2212,31 @@ def check_every_symbol_watched(ck, R):
           "_visit_dependency can finish without adding any rule for a symbol that resolves to an object no strategy matches (functools.partial, a class, "
           "an arbitrary instance): nothing watches that symbol, so re-binding it later to a function or a value keeps the cached version "
           "(path %s)" % v.cfg.describe_path(p), v.where())
+    # a rule found by a strategy is handed the result set through collect_transitive_dependencies: on every normal exit
+    # it has added a rule for its symbol (itself, or a watch-only stand-in when it is out of scope), unless it found
+    # itself accounted for already
+    n = 0
+    for cls in hash_rule_classes(ck):
+        if "try_resolve" not in cls.methods:
+            continue  # built directly by _visit_dependency, which adds them itself
+        m = cls.methods.get("collect_transitive_dependencies")
+        if m is None:
+            continue
+        n += 1
+        fa = FA(ck, m)
+        res = fa.fi.params[1] if len(fa.fi.params) > 1 else "result"
+        adds = fa.nodes_all([c for c in fa.calls("add") if A.norm(A.call_recv(c)) == res])
+        allowed = []
+        for r in fa.returns():
+            cj = fa.conditions(r)
+            if cj is not None and cj and all(any(l[0] == "self in %s" % res and l[1] for l in conj) for conj in cj):
+                allowed += fa.nodes(r)
+        p2 = fa.cfg.path(fa.cfg.entry, fa.cfg.exit, removed=set(adds) | set(allowed))
+        ok2 = p2 is None
+        ck.ob(R, fa.key(None, "adds-a-rule-on-every-exit"), ok2, "every exit of %s.collect_transitive_dependencies leaves a rule for the symbol" % cls.name if ok2 else
+              "%s.collect_transitive_dependencies can return without adding any rule for its symbol (a function outside the package scope, ...): "
+              "nothing watches that symbol, so re-binding it later to something hashable keeps the cached version (path %s)" % (cls.name, fa.cfg.describe_path(p2)), fa.where())
+    ck.need(n >= 3, "expected at least 3 strategy rule classes with collect_transitive_dependencies, found %d" % n)
 
 
 def _closures_denoted(fa, expr, at, depth=6, _via=()):
@@ -2459,6 +2563,60 @@ def check_field_call_lint(ck, R):
 
 
 # --------------------------------------------------------------------------------- C14
+def _unwrapped_param(fa, name, at):
+    """If local `name` at CFG node `at` holds parameter P after `while hasattr(v, '__wrapped__'): v = v.__wrapped__` (every
+    reaching definition is `v = P` or `v = v.__wrapped__`), or `inspect.unwrap(P)`: P, else None."""
+    ds = fa.df.reaching(at, name)
+    if not ds:
+        return None
+    base = None
+    steps = 0
+    for d in ds:
+        v = d.value if d.kind == "assign" else None
+        if d.kind == "param" and d.name == name:
+            # the parameter itself is walked down its wrappers: `while hasattr(p, '__wrapped__'): p = p.__wrapped__`
+            if base not in (None, name):
+                return None
+            base = name
+        elif isinstance(v, ast.Name) and v.id in fa.fi.params:
+            if base not in (None, v.id):
+                return None
+            base = v.id
+        elif isinstance(v, ast.Attribute) and v.attr == "__wrapped__" and isinstance(v.value, ast.Name) and v.value.id == name:
+            steps += 1
+        elif isinstance(v, ast.Call) and A.call_attr(v) == "unwrap" and len(v.args) == 1 and isinstance(v.args[0], ast.Name) and v.args[0].id in fa.fi.params:
+            if base not in (None, v.args[0].id):
+                return None
+            base = v.args[0].id
+            steps += 1
+        else:
+            return None
+    return base if base is not None and steps else None
+
+
+def _chain_through_unwrap(fa, e, at):
+    """(`P.a.b`, P) for an attribute chain whose root local is parameter P looked through its functools.wraps wrappers."""
+    attrs = []
+    cur = e
+    while isinstance(cur, ast.Attribute):
+        attrs.append(cur.attr)
+        cur = cur.value
+    if not isinstance(cur, ast.Name):
+        return None
+    ds = fa.df.reaching(at, cur.id)
+    if cur.id in fa.fi.params and all(d.kind == "param" for d in ds):
+        return None
+    if len(ds) == 1 and ds[0].kind == "assign" and isinstance(ds[0].value, ast.Attribute):
+        inner = _chain_through_unwrap(fa, ds[0].value, ds[0].node)
+        if inner is None:
+            return None
+        return (".".join([inner[0]] + list(reversed(attrs))), inner[1])
+    p = _unwrapped_param(fa, cur.id, at)
+    if p is None:
+        return None
+    return (".".join([p] + list(reversed(attrs))), p)
+
+
 def check_dotted_names(ck, R):
     ck.rule(R, "name extraction: the source visitor records bare names and attribute chains, and removes exactly the "
                "function's locals and cell variables (and chains rooted at them)", 4)
@@ -2530,6 +2688,7 @@ def check_dotted_names(ck, R):
     # at locals = the elements of RES itself whose first component is a member of such a set (comprehension or
     # filtering loop alike).  Anything else narrows the name set.
     WANT = {"fn.__code__.co_varnames", "fn.__code__.co_cellvars"}
+    unwrapped_bases = set()
     du0 = [c for c in fa.calls("difference_update") if isinstance(A.call_recv(c), ast.Name) and len(c.args) == 1]
     RES = A.call_recv(du0[0]).id if du0 else "result"
 
@@ -2568,6 +2727,11 @@ def check_dotted_names(ck, R):
                             out.add("<%s>" % A.norm(c))
                 return out
         ch = fa.df.chains(e, at)
+        if not ch:
+            u = _chain_through_unwrap(fa, e, at)
+            if u is not None:
+                unwrapped_bases.add(u[1])
+                return {u[0]}
         return set(ch) if ch else {"<not a plain attribute of fn.__code__>: " + A.norm(e)}
 
     def first_component_of(e, var):
@@ -2628,6 +2792,13 @@ def check_dotted_names(ck, R):
     okl = "locals" in klass.values() and "locals?" not in klass.values()
     ck.ob(R, fa.key(None, "locals-removed"), okl, "exactly co_varnames and co_cellvars are treated as local" if okl else
           "the set of names treated as local is %s (expected co_varnames and co_cellvars): globals are dropped or locals kept" % sorted(srcs), fa.where())
+    # inspect.getsource looks through functools.wraps wrappers, so the names in `source` are those of the innermost wrapped
+    # function: the locals taken out must be the locals of that function too, not those of the wrapper (args, kwargs)
+    uses_getsource = bool(fa.calls("getsource"))
+    oku = not uses_getsource or bool(unwrapped_bases)
+    ck.ob(R, fa.key(None, "locals-of-the-function-read"), oku, "the locals are those of the function whose source is read (looked through its wrappers)" if oku else
+          "the source is read through the function's wrappers (inspect.getsource follows __wrapped__) but the locals removed are those of the "
+          "wrapper itself: for a decorated helper the names of its own locals stay in the set and real references can be dropped", fa.where())
     okd = bool({"locals", "locals?"} & set(klass.values())) and bool({"chains", "chains?"} & set(klass.values()))
     ck.ob(R, fa.key(None, "difference"), okd, "locals and chains rooted at locals are subtracted" if okd else
           "list_dotted_names no longer subtracts both locals and local-rooted chains", fa.where())
@@ -2696,7 +2867,110 @@ def check_graph_derivation(ck, R):
     ck.ob(R, n.key(None, "first-level-false"), okf, "names reached through a plain helper are not direct" if okf else
           "dependencies reached through a plain helper are marked first_level", n.where())
     hr = FA(ck, MF + ".hash_rules")
+    def _all_hashing_rules(r):
+        """is the value returned self._hash_rules, or its rules in order minus the watch-only ones (which describe no dependency)?"""
+        at = hr.nodes(r)[0]
+        if hr.xnorm(r.value, at) == "self._hash_rules":
+            return True
+        spec = _collection_spec(hr, r.value, at)
+        if spec is None or hr.xnorm(spec["iter"], spec["iter_at"]) != "self._hash_rules" or A.norm(spec["elt"]) != spec["var"]:
+            return False
+        return _spec_literals(hr, spec) <= {("_c0.watch_only", False)}
+
     okh = any(A.call_attr(c) == "_update_dependencies" for c in hr.calls()) and bool(hr.returns()) \
-        and all(r.value is not None and hr.nodes(r) and hr.xnorm(r.value, hr.nodes(r)[0]) == "self._hash_rules"
+        and all(r.value is not None and hr.nodes(r) and _all_hashing_rules(r)
                 and hr.cfg.must_pass(hr.nodes_all(hr.calls("_update_dependencies")), hr.nodes(r)[0]) for r in hr.returns())
     ck.ob(R, hr.key(None), okh, "hash_rules() refreshes before answering" if okh else "hash_rules() does not refresh dependencies first", hr.where())
+
+
+def check_names_resolved_where_defined(ck, R):
+    """The names found in a function's source are looked up in the globals of the function that source belongs to.
+    inspect.getsource (list_dotted_names) and fn_code_hash look through functools.wraps wrappers, so every `__globals__`
+    the dependency walk reads must be taken from the function looked through its wrappers as well: the wrapper's own
+    `__globals__` is the module of the decorator, where the helper's references do not resolve (D40)."""
+    ck.rule(R, "referenced names are resolved in the globals of the function whose source was read (wrappers looked through)", 1)
+    v = FA(ck, CH + ".HashRule._visit_dependency")
+    src = v.fi.params[1] if len(v.fi.params) > 1 else "src_fn"
+    reads = [n for n in ast.walk(v.node) if isinstance(n, ast.Attribute) and n.attr == "__globals__" and isinstance(n.ctx, ast.Load)]
+    reads = [n for n in reads if v.enclosing(n, ast.Assign) is not None or v.enclosing(n, ast.Return) is not None]
+    ck.need(bool(reads), "_visit_dependency: no read of __globals__ found")
+    for n in reads:
+        st = v.enclosing(n, ast.Assign) or v.enclosing(n, ast.Return)
+        at = v.nodes(st)[0] if v.nodes(st) else None
+        if at is None:
+            continue
+        u = _chain_through_unwrap(v, n, at)
+        ok = u is not None and u[1] == src
+        ck.ob(R, v.key(None, "globals-of-the-function-read"), ok, "names are resolved in the globals of the wrapped function" if ok else
+              "`%s` is read from the object as given: for a helper decorated by a functools.wraps decorator of another module that is the "
+              "decorator's module, so the memento functions the helper calls are not found (missing from the closure, "
+              "UndeclaredDependencyError at run time)" % A.norm(n), v.where(st))
+
+
+def _class_unit(ck, fa):
+    """`fa` together with the methods of its own class it calls (transitively)."""
+    cls = ck.repo.try_cls(fa.fi.qual.rsplit(".", 1)[0]) if "." in fa.fi.qual else None
+    unit, seen, work = [fa], {fa.fi.name}, [fa]
+    while work and cls is not None:
+        cur = work.pop()
+        for c in cur.calls():
+            nm = A.call_attr(c)
+            if nm in cls.methods and nm not in seen:
+                seen.add(nm)
+                sub = FA(ck, cls.methods[nm])
+                unit.append(sub)
+                work.append(sub)
+    return unit
+
+
+def check_variable_kinds_described(ck, R):
+    """The hash of a tracked variable tells apart the values a program can tell apart.  The value is serialised through the
+    ARGUMENT codec, which deliberately conflates some kinds (whatever isinstance group it maps to one type tag - list and
+    tuple - and dictionary keys, which JSON writes as strings): the serialisation has to describe those kinds itself (D41)."""
+    ck.rule(R, "kinds of value the argument codec conflates (tuple / list, non-string dictionary keys) are described in a tracked variable's hash", 2)
+    enc = FA(ck, "serialization.MementoCodec.encode_arg")
+    groups = []
+    for nd in enc.cfg.nodes:
+        if nd.kind != "test":
+            continue
+        tys = set()
+        for atom in A.test_atoms(nd.ast):
+            it = A.isinstance_types(atom)
+            if it and it[0] == (enc.fi.params[1] if len(enc.fi.params) > 1 else "obj"):
+                tys |= set(it[1])
+        builtin = {t for t in tys if t in ("list", "tuple", "set", "frozenset", "dict")}
+        if len(builtin) >= 2:
+            groups.append(builtin)
+    ck.need(bool(groups), "encode_arg: no isinstance group of container kinds found (list / tuple)")
+    sv = FA(ck, CH + ".GlobalVariableHashRule._serialize_value")
+    unit = _class_unit(ck, sv)
+    tests = []
+    for u in unit:
+        for x in ast.walk(u.node):
+            it = A.isinstance_types(x) if isinstance(x, ast.Call) else None
+            if it:
+                tests.append(set(it[1]))
+    # what the helpers find reaches the serialisation: a returned value depends on a local handed to a helper of the unit,
+    # or on the helper's result
+    handed = set()
+    for c in sv.calls():
+        if A.call_attr(c) in {u.fi.name for u in unit[1:]}:
+            handed.add("call:" + A.call_attr(c))
+            for a_ in list(c.args) + [k.value for k in c.keywords]:
+                if isinstance(a_, ast.Name) and sv.df.is_local(a_.id) and a_.id not in sv.fi.params:
+                    handed.add("local:" + a_.id)
+    def reaches(r):
+        d = sv.df.deps(r.value, sv.nodes(r)[0])
+        return any(h in d for h in handed) or any(isinstance(x, ast.Name) and ("local:" + x.id) in handed for x in _flow(sv, r.value, sv.nodes(r)[0]).values()) \
+            or any(isinstance(x, ast.Name) and ("local:" + x.id) in handed for x in ast.walk(r.value))
+    flows = all(r.value is None or A.is_none(r.value) or not sv.nodes(r) or reaches(r) or len(unit) == 1 for r in sv.returns())
+    for g in groups:
+        ok = any(t and t < g for t in tests) and (flows or len(unit) == 1)
+        ck.ob(R, sv.key(None, "kinds-described:" + "/".join(sorted(g))), ok, "%s are told apart in the hash of a tracked variable" % " and ".join(sorted(g)) if ok else
+              "the hash of a tracked variable is taken from its encoding as an argument, which writes %s alike, and nothing else describes the "
+              "kind: editing G = (1, 2) into G = [1, 2] leaves every version where it was and results computed with the old value are served"
+              % " and ".join(sorted(g)), sv.where())
+    okk = any(t == {"str"} for t in tests) and (flows or len(unit) == 1)
+    ck.ob(R, sv.key(None, "kinds-described:keys"), okk, "non-string dictionary keys are described in the hash of a tracked variable" if okk else
+          "the hash of a tracked variable is taken from a JSON dump, which writes every dictionary key as a string, and nothing else describes "
+          "the keys: editing G = {1: 'a'} into G = {'1': 'a'} leaves every version where it was", sv.where())
